@@ -73,6 +73,7 @@ type Outcome struct {
 	Thrown     bool
 	Assigned   map[string]bool
 	Mirrored   bool
+	DigitUse   bool
 	ReadFirst  map[string]bool // tracked fields read before being written in this arm
 	Decisions  []string
 	Peek       *[256]bool // the arm looked at the next byte without consuming it: the next dispatched byte is in this set
@@ -859,6 +860,7 @@ func (m *Machine) StepOpt(in *Interp, s0 *State, b int, oneByte bool) []Outcome 
 	s.readFirst = nil
 	s.decisions = nil
 	s.mirrored = false
+	s.digitUse = false
 	s.pendingRestore = 0
 	s.locals[m.offVar] = vOff(0, false)
 	var outs []Outcome
@@ -892,7 +894,7 @@ func (m *Machine) EOF(in *Interp, s0 *State) []Outcome {
 }
 
 func (m *Machine) outcome(e Exit, eof bool) Outcome {
-	o := Outcome{Mirrored: e.st.mirrored, ReadFirst: e.st.readFirst, Decisions: e.st.decisions, Events: e.st.events, Pops: e.st.popped, Pushes: e.st.pushed, Notes: e.st.notes, ReadStale: e.st.readStale, Assigned: e.st.assigned}
+	o := Outcome{DigitUse: e.st.digitUse, Mirrored: e.st.mirrored, ReadFirst: e.st.readFirst, Decisions: e.st.decisions, Events: e.st.events, Pops: e.st.popped, Pushes: e.st.pushed, Notes: e.st.notes, ReadStale: e.st.readStale, Assigned: e.st.assigned}
 	switch e.ctl {
 	case cPanic:
 		if strings.HasPrefix(e.why, "explicit panic") {
@@ -1151,6 +1153,7 @@ func (m *Machine) outcome(e Exit, eof bool) Outcome {
 	n.readFirst = nil
 	n.decisions = nil
 	n.mirrored = false
+	n.digitUse = false
 	n.pendingRestore = 0
 	m.normaliseDead(n)
 	o.Next = n
